@@ -221,12 +221,20 @@ func (ob *Obligation) Script(getModel bool) string {
 				goal = x.o.Subst(goal, m2)
 				as = append(as, eqs...)
 			}
-			for _, a := range x.relevant(as, goal, ob.Case) {
+			rel := x.relevant(as, goal, ob.Case)
+			for _, a := range rel {
+				s.Assert(a)
+			}
+			for _, a := range x.instantiate(rel, goal) {
 				s.Assert(a)
 			}
 			s.Assert(ob.Case)
 		} else {
-			for _, a := range x.relevant(x.assumes[:ob.NAssume], goal) {
+			rel := x.relevant(x.assumes[:ob.NAssume], goal)
+			for _, a := range rel {
+				s.Assert(a)
+			}
+			for _, a := range x.instantiate(rel, goal) {
 				s.Assert(a)
 			}
 		}
